@@ -305,18 +305,22 @@ func (fs *FS) Rename(oldname, newname string) error {
 			return err
 		}
 		txn, err := fs.store.Transaction(TransactionOptions{Mode: TransactionReadWrite})
-		if err == nil {
-			err = fs.setFileTxn(txn, newname, oldFile.fileData, contents)
+		if err != nil {
+			return err
 		}
+		err = fs.setFileTxn(txn, newname, oldFile.fileData, contents)
 		if err == nil {
 			err = fs.setFileTxn(txn, oldname, nil, nil)
 		}
 		if err != nil {
 			_ = txn.Abort()
-		} else {
-			_, err = txn.Commit(context.Background())
+			return err
 		}
-		return err
+		results, err := txn.Commit(context.Background())
+		if err != nil {
+			return err
+		}
+		return firstResultErr(results)
 	}
 
 	newFile, err := fs.getFile(newname)
